@@ -12,7 +12,9 @@
 (* bubbles, rdy1 (1: consumer always ready), credit (> 0: the producer     *)
 (* offers a beat only while fewer than `credit` accepted beats are         *)
 (* undelivered - a credit-based producer that never meets a full FIFO),    *)
-(* cap, npar.                                                              *)
+(* cap, npar, junk (1: while valid = 0 the producer may drive arbitrary    *)
+(* payload, `last` and params - the vector <<0, jdata, 1, pmax>> stands    *)
+(* for it; a field of newer configuration records only).                   *)
 (* data/param values are only compared and moved (ints in the exhaustive   *)
 (* mode, limb tuples in recorded traces).                                  *)
 (***************************************************************************)
@@ -29,6 +31,9 @@ cvars == <<ep, hold, q, oprev, obs>>
 LastAllowed(c, k, l) == IF l = 1 THEN k + 1 >= c.minlen /\ k + 1 <= c.maxlen ELSE k + 1 < c.maxlen
 Tag(c, par, k) == 1 + par * c.maxlen + k
 Rdy(c) == IF c.rdy1 = 1 THEN {1} ELSE {0, 1}
+Junk(c) == "junk" \in DOMAIN c /\ c.junk = 1
+(* what the bus may carry while the producer offers nothing *)
+IdleToks(c) == {<<0, 0, 0>>} \cup (IF Junk(c) THEN {<<c.jdata, 1, c.pmax>>} ELSE {})
 
 Inputs(c) ==
   IF hold # <<>>
@@ -38,7 +43,8 @@ Inputs(c) ==
                  l \in {x \in {0, 1} : LastAllowed(c, ep.k, x)},
                  p \in (IF ep.k = 0 THEN 0..c.pmax ELSE {ep.p}), r \in Rdy(c) }
         ELSE {}) \cup
-       (IF c.bubbles = 1 \/ ep.k = 0 \/ (c.credit > 0 /\ Len(q) >= c.credit) THEN { <<0, 0, 0, 0, r>> : r \in Rdy(c) } ELSE {})
+       (IF c.bubbles = 1 \/ ep.k = 0 \/ (c.credit > 0 /\ Len(q) >= c.credit)
+        THEN { <<0, t[1], t[2], t[3], r>> : t \in IdleToks(c), r \in Rdy(c) } ELSE {})
 
 EnvOk(c, iv) ==
   LET tok == <<iv[2], iv[3], iv[4]>> IN
